@@ -11,7 +11,7 @@ CHECKS = {
              '+= -= *= /= Transpose Real Imag == code is executed symbolically from its LLVM IR with every component, matrix entry and '
              'scalar a solver variable; the vector<->matrix map is pinned against the generalised Gell-Mann definition (layout d*i+j, '
              'Tr l_a l_b = 2 delta_ab) and each operation is decided against the corresponding matrix operation by z3 (LRA/NRA on the '
-             'normal-form residual, Float64 for exact Hermiticity, path-wise for operator== with owning and viewing operands in all four combinations). The matrix constructor is also run on strided views (a d x d block of a larger matrix whose other entries are symbolic) and decided identical to the compact case. Bounded: all inputs in the unit box for '
+             'normal-form residual, Float64 for exact Hermiticity, path-wise for operator== with owning and viewing operands in all four combinations). The matrix constructor is also run on strided views (a d x d block of a larger matrix whose other entries are symbolic) and decided identical to the compact case; A/=s must be the single division a_k/s per component (term identity: a reciprocal-and-multiply is equal in exact reals only). Bounded: all inputs in the unit box for '
              'the toleranced identities (the maps are linear-homogeneous), exact reals instead of doubles.',
         note='Trusted: clang-14 -O1 IR as source semantics (diffed bit-for-bit against the g++ build on seeded inputs each run); GSL '
              'accessor shim harness/gsl_shim.c; exact-real arithmetic with a 1e-13 tolerance stands in for "up to rounding" '
@@ -42,7 +42,7 @@ CHECKS['C17'] = dict(
          '(thorough 2..33) with a<b and x symbolic reals: grid shape (ends, monotone, equal spacing; log/exp as monotone inverse '
          'uninterpreted functions with listed lemma instances; (1+delta) rounding model for the linear end point), acceptance of user '
          'grids iff sorted and of the right size with exact storage, and Get_i bracketing on exact uniform grids and on arbitrary '
-         'strictly increasing symbolic grids (i<=nx-2, x_i<=x<=x_{i+1}, throws iff outside). A log grid whose nodes are not exp of an affine function of log a, log b cannot be decided in the uninterpreted model and is confirmed or dismissed natively at node counts up to 200000 (end node within 8(1+|log a|+|log b|) ulp of b).',
+         'strictly increasing symbolic grids (i<=nx-2, x_i<=x<=x_{i+1}, throws iff outside). A log grid whose nodes are not exp of an affine function of log a, log b cannot be decided in the uninterpreted model and is confirmed or dismissed natively at node counts up to 200000 (end node within 8(1+|log a|+|log b|) ulp of b); the linear node formula must be the term a+(b-a)k/(nx-1) (monotone in doubles) or pass a native stress battery; the range test of Get_i is decided in the (1+delta) rounding model (end nodes never rejected, outer neighbours never accepted).',
     note='Trusted: clang-14 -O1 IR (interpreter-vs-native diff), std::string/operator new intrinsics, GSL shim for the Const members; '
          'exact reals stand in for doubles (the lookup only compares, so rounding enters through the grid values, which are symbolic).',
     design='§3 C17')
@@ -51,7 +51,7 @@ CHECKS['C03'] = dict(
          'H and the times symbolic; sin/cos calls become atoms keyed by their argument term and the solver identifies each argument '
          'with +-(E_j-E_k)t for a level pair (E from the C01-pinned map). With the instantiated lemmas (parity, circle, angle addition) '
          'z3 decides entry-wise conjugation exp(iHt)A exp(-iHt), preservation of scalar products, the group law t1 then t2 = t1+t2, '
-         't=0 identity (folded), agreement of the two-step form, and of both forms when the result is assigned onto the evolved vector itself, on the normal-form residuals.',
+         't=0 identity (folded), agreement of the two-step form, and of both forms when the result is assigned onto the evolved vector itself, on the normal-form residuals; if PrepareEvolve branches on its arguments, every special branch is decided by a direct query on a buffer that held arbitrary values before the call.',
     note='Trusted: as C01; sin/cos are uninterpreted atoms constrained only by the listed true lemmas (so the claim is for exact-real '
          'evaluation, large |t| argument rounding is outside); H restricted to the diagonal generators as the property states.',
     design='§3 C03')
@@ -61,7 +61,7 @@ CHECKS['C11'] = dict(
          'post-dominator, so one symbolic path covers all 2^15 flag patterns in dimension 6. z3 decides per pair: zero+flag iff '
          '|phase|>|scale| else equal to the unaveraged table; multiplier 1 / ramp / 0 and rejection iff |ramp|>|cutoff|; the interval '
          'table against the closed-form average (cross-multiplied, circle lemma on canonical atoms), its limit values for coincident '
-         'levels, and that no executed division can have a zero divisor for finite inputs with t0<t1.',
+         'levels, and that no executed division can have a zero divisor for finite inputs with t0<t1; the flag vector is decided from both prior contents (all false, all true).',
     note='Trusted: as C03; the closed form of the time average of cos/sin is a trusted calculus fact; the unaveraged table is the '
          'oracle for "as in the unaveraged table" and is tied to level pairs by solver queries.',
     design='§3 C11')
@@ -72,7 +72,7 @@ CHECKS['C06'] = dict(
          'multiplied out equals Const::GetTransformationMatrix entry-wise, and B0 is the reversed, angle-negated sequence; end to end '
          'for small d. Rotate(U), UTransform(U), UDaggerTransform(U) are decided against U^dagger M U / U M U^dagger for a fully symbolic '
          'complex U, including after a previous call with the same matrix object or another dimension (thread-local scratch). The '
-         'WeightedRotation sandwich is decided = Yd A Yd and both overloads compose the same logged primitive maps. The parameter store '
+         'WeightedRotation sandwich is decided = Yd A Yd, both overloads compose the same logged primitive maps, and the call with the weight operator being the rotated vector itself equals the call with a separate copy (d<=2 quick, <=3 thorough, all angles symbolic). The parameter store '
          'is decided with unconstrained symbolic indices.',
     note='Trusted: as C03; zgemm/containers from the reference shim; matrix entry points for d<=4 in the quick tier (d<=6 thorough); '
          'general (non-diagonal) Yd is outside the WeightedRotation clause.',
@@ -84,7 +84,7 @@ CHECKS['C14'] = dict(
          'bit-identical (object fields and buffer cells) and no load/store may fall outside the operands\' own d^2 doubles. All '
          'constructors/factories are run with dimension 1,7,8, every unsupported list length <=64, every unsupported matrix shape up to 8x8 and '
          'a symbolic factory index in 0..d*d+2; z3 decides that only admissible arguments are accepted; out-of-range cache indexing is caught '
-         'by the object table. Candidates are replayed natively under ASan/UBSan.',
+         'by the object table; every entry point is run with separate operand buffers and with both operands viewing one user buffer. Candidates are replayed natively under ASan/UBSan.',
     note='Trusted: clang-14 -O1 IR; heap/object model of irsym (fresh 32-byte aligned blocks, thread-local cache initially empty); the '
          'window of unsupported arguments is the one stated in the property.',
     design='§3 C14')
@@ -110,7 +110,7 @@ CHECKS['C16'] = dict(
          'operation is re-executed N times with exactly the j-th call throwing std::bad_alloc (complete per operation). Decided on each '
          'path: the exception propagates (no terminate), every other vector is bit-identical (objects and user buffers), then (a) all '
          'vectors are destroyed and the cache drained and (b) the target is first re-assigned: no double/invalid free, no use of '
-         'released or null storage, no leaked new[] block. Failing cases are replayed natively with a counting/failing global operator new.',
+         'released or null storage, no leaked new[] block. Failing cases are replayed natively with a counting/failing global operator new. Because clang\'s IR can define what the source leaves undefined (measured: delete[] (nullptr - offset) is skipped by clang and executed by g++), a native g++/ASan battery runs the catalogue with every allocation index failing from two pre-states with objects built in 0xA5-filled storage; its findings are labelled as not solver-decided.',
     note='Trusted: clang-14 -O1 IR; irsym heap ledger; GSL allocations (malloc) never fail (the property speaks of std::bad_alloc); one '
          'failure per operation; dimensions (2,3) in the quick tier, four pairs in the thorough tier.',
     design='§3 C16', category='model_checking')
@@ -120,7 +120,7 @@ CHECKS['C15'] = dict(
          'rotations, views, conversions, printing, SetBackingStore, destruction, cache churn beyond its 32-entry capacity, including calls '
          'that end in a library exception) are executed symbolically from 25 pre-states; every load/store/memcpy is checked against the '
          'object table (bounds, lifetime, constness), every delete against the allocation ledger, nsw/nuw arithmetic, shifts, division, '
-         'unreachable and llvm.assume (asserted, i.e. alignment/size guarantees must hold) on the executed path; at the end everything is '
+         'unreachable and llvm.assume incl. its "align" operand bundles (asserted, i.e. the alignment/size guarantees handed to the optimiser must hold; an alignment family sends plain new[] blocks through the cache before guarantee<AlignedStorage> is used) on the executed path; at the end everything is '
          'destroyed, the cache drained and the ledger must be empty. SQuIDS objects: construct/ini/re-ini/move/destroy histories with a '
          'full new/new[]/malloc ledger. Failing histories are replayed on an ASan/UBSan build with a counting allocator.',
     note='Trusted: clang-14 -O1 IR; irsym object/heap model; bound: histories <=3 operations (multi-step ones sampled by VERIF_SEED in the '
@@ -160,9 +160,8 @@ CHECKS['C04'] = dict(
          'i[rho,HI] - {Gamma,rho} + I_rho and -Gamma_s s + I_s per node/matrix/scalar built from the INPUT buffer with the arguments (node, '
          'index, stepper time); every output entry is written, nothing else of the driver\'s buffers is, PreDerive(tau) precedes the terms, '
          'exactly the enabled terms are called once, the callback parameter is the evolving object, enabled terms imply an integration, '
-         'the clock advances by dt, views are re-aliased to the stored state, a failing status becomes std::runtime_error.',
-    note='Trusted: clang-14 -O1 IR; GSL driver stub (assumes the first callback of an integration is at the state vector, as all explicit GSL '
-         'steppers do); OUTSIDE: "agrees with closed-form solutions to the requested tolerance for every stepper" -- GSL is compiled code '
+         'the clock advances by dt, views are re-aliased to the stored state, a failing status becomes std::runtime_error; the driver is created with the user\'s step size and tolerances in GSL\'s argument order (hstart, epsabs, epsrel; hmin; hmax).',
+    note='Trusted: clang-14 -O1 IR; GSL driver stub, whose contract (inputs are the state array or driver-owned scratch, outputs driver-owned and distinct, times inside the interval) is validated against the real driver on every run (6 steppers x adaptive/fixed); OUTSIDE: "agrees with closed-form solutions to the requested tolerance for every stepper" -- GSL is compiled code '
          'without IR; that clause is only exercised natively (every stepper, adaptive and fixed, against scipy) on one configuration per run '
          'and in the replay of candidates.',
     design='§3 C04, §4')
@@ -173,7 +172,7 @@ CHECKS['C10'] = dict(
          't_ini + sum dt as a polynomial identity (fixed stepping: t + n*(dt/n)); with all terms off the stored state is term-identical and '
          'PreDerive(t_new) is called exactly once on the evolving object; after every Evolve each in-step view is the stored state at its '
          'documented offset; after a move the ODE callbacks are bound to the new object and read the buffer handed to them; re-ini starts a '
-         'fresh clock.',
+         'fresh clock; after every operation (moves included) the object in use reports the initial time it was given and the accumulated clock.',
     note='Trusted: as C04. OUTSIDE: equality of the integrated state with a single Evolve over the total interval (GSL integrators); '
          'exercised natively only (split vs single interval in the C04 replay).',
     design='§3 C10, §4')
@@ -184,7 +183,7 @@ CHECKS['C19'] = dict(
          'every interleaving of up to 3 concurrent operations (2 threads x 1, 3 threads x 1 and 2 threads x (2+1), all insert/fetch patterns) after 0..N '
          'sequential inserts: fetches return only successfully inserted blocks, no block is returned twice, a fetched block is not also '
          'left in the cache, draining at quiescence yields exactly inserted minus fetched; compare-exchange loops are unwound with '
-         '--unwinding-assertions and every harness ends in an assert(0) reachability witness that must fail. Single owner (both configurations): every operation sequence of length 2N+2 behaves as a bounded LIFO. '
+         '--unwinding-assertions and every harness ends in an assert(0) reachability witness that must fail; the cache object starts with nondeterministic content (the constructor must establish everything the operations rely on). Single owner (both configurations): every operation sequence of length 2N+2 behaves as a bounded LIFO. '
          'Counterexamples are confirmed on the REAL template by a schedule explorer that makes every compare-exchange a scheduling point.',
     note='Trusted: clang-14 -O1 IR; the IR->C translator (validated each run against the real template on 4000 random single-thread '
          'operations per capacity/configuration); CBMC 6.11; sequential consistency; no spurious CAS failures. Bound: quick tier capacity 1 (all scenarios), 2 (all 2x1 scenarios + seeded 3-operation scenarios), 3 (2x1 scenarios); thorough capacity 1..4; 4+ concurrent operations are outside. A scenario on which CBMC does not finish within its cap is listed as NOT-EXPLORED in the output and evidence and claims nothing.',
@@ -198,7 +197,7 @@ CHECKS['C07'] = dict(
          'call sites checked to pass (2,5), hence whether matrix_exponential can throw for n=2..6; (3) dispatch with all 2n^2 entries '
          'symbolic: the diagonal shortcut is taken iff the matrix is diagonal and returns diag(exp a_ii), every other input reaches the '
          'estimator; (4) UTransform(V,scale): the matrix handed to the exponential is scale*S2M(V) and the result is E^dagger M E for the '
-         '(summarised, arbitrary) E it returns, also after a previous call in another dimension (thread-local scratch); (5) order selection, scaling and repeated squaring: on a bidiagonal nilpotent 7x7 matrix with 12 symbolic parameters, for which every Pade order and every scaling is exact, the result is decided equal to exp(A) for scripted norm estimates that drive every order 3,5,7,9,13 (by norm and by ell veto) and scaling exponents s=0..2 (thorough ..5).',
+         '(summarised, arbitrary) E it returns, also after a previous call in another dimension (thread-local scratch); (5) order selection, scaling and repeated squaring: on a bidiagonal nilpotent 7x7 matrix with 12 symbolic parameters, for which every Pade order and every scaling is exact, the result is decided equal to exp(A) for scripted norm estimates that drive every order 3,5,7,9,13 (by norm and by ell veto) and scaling exponents s=0,1,2,6,8 (thorough 0..8, 10: norms up to the ~1e3 the property allows).',
     note='OUTSIDE: "equals exp(A) to a small multiple of machine precision times the conditioning, for every matrix, norm band and history": '
          'floating-point backward-error analysis through GSL\'s compiled LU, the randomised norm estimator and pow/log; also the theta_m '
          'thresholds and the values of the estimators are not decided (the estimators are stubs in (5); ell(B,13) is scripted as 0, which holds on the property\'s domain). The native replay compares with scipy.linalg.expm on '
@@ -209,7 +208,7 @@ CHECKS['C12'] = dict(
          'symbolic and sqrt/cbrt/pow/carg/clog/cexp as uninterpreted atoms) which divisors can vanish for finite inputs -- every divisor that '
          'is a polynomial in the inputs, and the polynomial base of every pow/sqrt/cbrt atom occurring in a divisor; each satisfying '
          'assignment is completed to a concrete operator and run on the real code, which must return finite values with M V = V diag(L) and '
-         'V unitary. Not decided: validity for degenerate/near-degenerate spectra and all of dimensions 2,4,5,6 (GSL); those are exercised '
+         'V unitary; for d=2,4,5,6 the glue around gsl_eigen_hermv under a contract stub (matrix handed over = S2M(vector), containers and workspace of order d, workspace released, results passed through, sort requested iff asked, vector unmodified, no leak). Not decided: validity for degenerate/near-degenerate spectra and all of dimensions 2,4,5,6 (GSL); those are exercised '
          'by a native battery of structured inputs and call histories whose findings are reported and labelled as such.',
     note='OUTSIDE: gsl_eigen_hermv (compiled, iterative) for d != 3; the residual/unitarity identity for d = 3 (complex cube roots, '
          'cancellation). Three pre-existing defects of the d=3 closed form are recorded in known_findings.txt (not repaired: a correct '
